@@ -173,7 +173,7 @@ pub fn ecrts_bounds(wl: &RosWorkload, which: Analysis, loose_blocking: bool) -> 
 pub enum FixedPoint {
     Vector(Vec<u64>),
     /// the analysis reported divergence (or did not settle within the iteration cap): no claim
-    NoClaim(&'static str),
+    NoClaim(#[allow(dead_code)] &'static str),
     Panic,
 }
 
